@@ -1305,6 +1305,19 @@ def extract_c06():
         ty, ml = queue_of(attr)
         L.append(f"def {name}_type : String := {lean_str(ty)}")
         L.append(f"def {name}_maxlen : Option Nat := {'none' if ml is None else 'some %d' % int(ml)}")
+    # connectConsumer: is `consumer.registerProducer(...)` called before `self._consumer` is assigned?  (a consumer may
+    # resume its producer from registerProducer(); what that yields must be queued, not written past the queue)
+    def registers_before_attach():
+        try:
+            fn = ast.parse(textwrap.dedent(inspect.getsource(tr.Connection.connectConsumer))).body[0]
+            reg = [n.lineno for n in ast.walk(fn) if isinstance(n, ast.Call) and _call_name(n).endswith("registerProducer")]
+            asg = [n.lineno for n in ast.walk(fn) if isinstance(n, ast.Assign) and any(
+                isinstance(t, ast.Attribute) and t.attr == "_consumer" and isinstance(t.value, ast.Name)
+                and t.value.id == "self" for t in n.targets)]
+            return bool(reg) and bool(asg) and max(reg) < min(asg)
+        except Exception:
+            return False
+    L.append(f"def connectConsumer_registers_before_attach : Bool := {'true' if registers_before_attach() else 'false'}")
     L.append("/-- ordered outgoing calls `(guard-shape, callee)` of the `transit.Connection` record-layer methods -/")
     L.append("def skeleton : String → List (String × String)")
     for name in C06_SKELETON_METHODS:
